@@ -21,7 +21,7 @@ TYPES = ["Length", "Mass", "Velocity", "Duration", "DataVolume", "Volume",
          "Energy"]
 Q_NUM = [1, 2, 3, 5, 7, 25]
 Q_DEN = [1, 2, 3, 4, 8, 10, 100]
-OFFSETS = ["mult", "tie", "tie+", "tie-", "third", "nine"]
+OFFSETS = ["mult", "tie", "tie+", "tie-", "third", "nine", "mult+", "mult-"]
 
 
 def gen_case(rng, chk, mode, explicit, as_fraction, tname=None):
@@ -40,9 +40,11 @@ def gen_case(rng, chk, mode, explicit, as_fraction, tname=None):
     k = rng.choice([-2, -1, 0, 1]) if rng.random() < 0.3 else \
         rng.randint(-50, 50)
     off = rng.choice(OFFSETS)
-    frac = {"mult": F(0), "tie": F(1, 2), "tie+": F(1, 2) + F(1, 10 ** 6),
-            "tie-": F(1, 2) - F(1, 10 ** 6), "third": F(1, 3),
-            "nine": F(9, 10)}[off]
+    # a hair beside a tie or a multiple: 10**-3 .. 10**-33 of the quantum
+    eps = F(1, 10 ** rng.choice([3, 6, 6, 10, 15, 25, 33]))
+    frac = {"mult": F(0), "tie": F(1, 2), "tie+": F(1, 2) + eps,
+            "tie-": F(1, 2) - eps, "third": F(1, 3),
+            "nine": F(9, 10), "mult+": eps, "mult-": -eps}[off]
     x = (k + frac) * g
     if tname == "DataVolume":
         # amounts are stored on the unit's grid; choose x on the grid
